@@ -37,9 +37,9 @@ CLAIMED = {
     "C11": ("Coq proof (IDLE only if ongoing for every populate with that contract + the contract for the Hyperband/grid/random models; run-count invariant; termination of the sequential loop; STOPPED reasons) + fair-schedule exploration on the four real oracles",
             "C11_idle_only_if_busy + C11_hyperband_idle/C11_grid_idle/C11_random_idle; C11_runs_bounded(_step): run counters <= max_retries+1 in every reachable state incl. reloads, hence at most (max_retries+1)*#trials runs; "
             "C11_search_terminates; C11_stopped_reason + C11_hyperband_stopped/C11_random_stopped (and C09_stopped_complete for grid): STOPPED only when the budget is used up, the Hyperband sweep is at bracket 0 of the last iteration with no "
-            "open bracket able to take/promote a trial, the sampling loop gave up, or every grid combination was tried. Fair termination with several workers follows from these and is exercised on the real oracles: fair worker pools "
+            "open bracket able to take/promote a trial, the sampling loop gave up, or every grid combination was tried; C11_bayes_idle / C11_bayes_stopped: the Bayesian glue (BayesSym.v) never answers IDLE itself and stops only when its warm-up sampler gives up. Fair termination with several workers follows from these and is exercised on the real oracles: fair worker pools "
             "run to global STOPPED under a step cap (all-fail / all-invalid patterns, spaces declared only inside trials), checking IDLE-only-with-ongoing, the run bound and a reason for every STOPPED.",
-            "Trusted: Coq kernel; the oracle models are tied to the code by the correspondences of C01/C06/C09/C10; Bayesian oracle only explored; fairness realised by the harness.", "DESIGN.md section 6 C11"),
+            "Trusted: Coq kernel; the oracle models are tied to the code by the correspondences of C01/C06/C09/C10 (Bayesian glue: C04/C05 correspondences; its Gaussian process is uninterpreted); fairness realised by the harness.", "DESIGN.md section 6 C11"),
     "C09": ("Coq proof chain on the grid model (G3/G4/GP/GQ/GR/GT2: successor, compare = rank order, oracle invariant over all runs, STOPPED => permutation of all combinations) + differential correspondence with GridSearchOracle",
             "C09_successor: _get_next_combination is the successor function of the lexicographic enumeration `combos` of the valid assignments (conditions nested to any depth); C09_compare: _compare is the order of positions; "
             "C09_invariant: the invariant GInv (ordered list strictly increasing in rank from rank 0, every element closed / pending / ongoing) holds in every state of every run - any number of tuners, any finishing order, "
